@@ -85,6 +85,10 @@ var extra = []string{
 	"steps:\n  - type: script\n    command: z\n  - type: 7\n",
 	"steps:\n  - group: ~\n    steps: ~\n  - group: g2\n    steps:\n      - group: inner\n        steps: [wait, {command: c}]\n",
 	"a: &a {command: shared}\nsteps:\n  - *a\n  - <<: *a\n    label: l\n",
+	// the only fallback sits inside a group (one and two levels down): it must still surface as a warning
+	"steps:\n  - group: g\n    steps:\n      - mystery: 1\n",
+	"steps:\n  - command: ok\n  - group: g\n    steps:\n      - command: fine\n      - group: inner\n        steps:\n          - type: nope\n  - wait\n",
+	"- group: g\n  steps:\n    - shrug\n",
 	// anchor / alias / merge cycles: rejected or tolerated, never a hang or a crash
 	"steps:\n  - command: echo hello\n    <<: &loop [*loop]\n",
 	"steps:\n  - command: c\n    <<: &s [[*s], {label: l}]\n",
